@@ -13,8 +13,10 @@
  * Two strengths, both on the same extracted text:
  *   SAFE_*  : memory safety, index ranges, arithmetic, termination; loop contracts, unbounded in
  *             the number of ranges (n <= VEC_MAX only to keep pointer arithmetic in one object).
- *   FUNC_*  : WF preservation + pointwise set semantics; spec functions contain loops over the
- *             vector, so these are BOUNDED in the number of ranges (--unwind, N <= C16_NMAX).
+ *   bounded : WF preservation + pointwise set semantics (bounded.c, words.c); spec functions contain
+ *             loops over the vector, so these are BOUNDED in the number of ranges (--unwind).  They
+ *             are assumed/asserted around a direct call, not enforced as contracts: --dfcc with
+ *             looping spec functions ran out of 16 GB.
  */
 #ifndef C16_SPEC_H
 #define C16_SPEC_H
@@ -24,117 +26,18 @@
 #ifndef C16_NMAX
 #define C16_NMAX 4
 #endif
-#ifdef C16_FUNC
-#define VEC_MAX (C16_NMAX + 1)
-#else
 #define VEC_MAX 4096
-#endif
 
 #define RET __CPROVER_return_value
-#define V(c) ((c)->__base0)
-#define NOWRAP(s, l) ((uint64_t)((s) + (l)) >= (s))
-#ifndef INR_SUB
-#define INR(x, s, l) ((x) >= (s) && (x) < (uint64_t)((s) + (l)))
-#else
-#define INR(x, s, l) ((uint64_t)((x) - (s)) < (l))
-#endif
 
 extern uint64_t g_x;
 extern _Bool g_was_member, g_was_overlap, g_was_covered;
 
 /* shape of the representation: pointers valid, len within capacity */
-#ifdef C16_FUNC
-/* bounded jobs: constant capacity (a symbolic allocation size exhausts memory in the SAT encoding) */
-#define SHAPE(c, room) (__CPROVER_is_fresh((c), sizeof(coverage)) && V(c).cap == VEC_MAX && \
-   V(c).len + (room) <= V(c).cap && __CPROVER_is_fresh(V(c).data, VEC_MAX * sizeof(cov_range)))
-#else
 #define SHAPE(c, room) (__CPROVER_is_fresh((c), sizeof(coverage)) && V(c).cap <= VEC_MAX && \
    V(c).len + (room) <= V(c).cap && __CPROVER_is_fresh(V(c).data, V(c).cap * sizeof(cov_range)))
-#endif
 
-/* ---- spec functions (loops => bounded use only) ------------------------------------------ */
-static inline _Bool cov_wf(const coverage *c)
-{
-  for (size_t i = 0; i < V(c).len; ++i)
-    {
-      const cov_range *r = &V(c).data[i];
-      if (r->length == 0 || !NOWRAP(r->start, r->length))
-        return 0;
-      if (i + 1 < V(c).len && !(r->start + r->length < V(c).data[i + 1].start))
-        return 0;
-    }
-  return 1;
-}
-
-static inline _Bool cov_member(const coverage *c, uint64_t x)
-{
-  for (size_t i = 0; i < V(c).len; ++i)
-    if (INR(x, V(c).data[i].start, V(c).data[i].length))
-      return 1;
-  return 0;
-}
-
-/* some address of [s, s+l) is a member  (l > 0, no wrap) */
-static inline _Bool cov_overlaps(const coverage *c, uint64_t s, uint64_t l)
-{
-  for (size_t i = 0; i < V(c).len; ++i)
-    if (s < V(c).data[i].start + V(c).data[i].length && V(c).data[i].start < s + l)
-      return 1;
-  return 0;
-}
-
-/* every address of [s, s+l) is a member; for a WF set that means one range contains it */
-static inline _Bool cov_covers(const coverage *c, uint64_t s, uint64_t l)
-{
-  for (size_t i = 0; i < V(c).len; ++i)
-    if (V(c).data[i].start <= s && s + l <= V(c).data[i].start + V(c).data[i].length)
-      return 1;
-  return 0;
-}
-
-#ifdef C16_FUNC
-/* ---- functional contracts (bounded in the number of ranges) ------------------------------ */
-const cov_range *coverage_find_const(const coverage *self, uint64_t start)
-__CPROVER_requires(SHAPE(self, 0) && V(self).len > 0 && cov_wf(self))
-__CPROVER_ensures(__CPROVER_same_object(RET, V(self).data))
-__CPROVER_ensures((size_t)(RET - V(self).data) <= V(self).len)
-/* partition: everything before the result starts below `start`, the result and after do not */
-__CPROVER_ensures(RET == V(self).data || (RET - 1)->start < start)
-__CPROVER_ensures(RET == V(self).data + V(self).len || RET->start >= start)
-__CPROVER_assigns();
-
-void coverage_add(coverage *self, uint64_t start, uint64_t length)
-__CPROVER_requires(SHAPE(self, 1) && cov_wf(self) && NOWRAP(start, length))
-__CPROVER_requires(g_was_member == cov_member(self, g_x))
-__CPROVER_ensures(cov_wf(self))
-__CPROVER_ensures(cov_member(self, g_x) == (g_was_member || INR(g_x, start, length)))
-__CPROVER_ensures(V(self).len <= __CPROVER_old(V(self).len) + 1)
-__CPROVER_assigns(V(self).len, __CPROVER_object_whole(V(self).data));
-
-_Bool coverage_remove(coverage *self, uint64_t start, uint64_t length)
-__CPROVER_requires(SHAPE(self, 1) && cov_wf(self) && NOWRAP(start, length))
-__CPROVER_requires(g_was_member == cov_member(self, g_x))
-__CPROVER_requires(g_was_overlap == (length > 0 && cov_overlaps(self, start, length)))
-__CPROVER_ensures(cov_wf(self))
-__CPROVER_ensures(cov_member(self, g_x) == (g_was_member && !INR(g_x, start, length)))
-__CPROVER_ensures(RET == g_was_overlap)
-__CPROVER_ensures(V(self).len <= __CPROVER_old(V(self).len) + 1)
-__CPROVER_assigns(V(self).len, __CPROVER_object_whole(V(self).data));
-
-_Bool coverage_is_covered(const coverage *self, uint64_t start, uint64_t length)
-__CPROVER_requires(SHAPE(self, 0) && cov_wf(self) && NOWRAP(start, length) && length > 0)
-__CPROVER_requires(g_was_member == cov_member(self, g_x))
-__CPROVER_ensures(RET == cov_covers(self, start, length))
-__CPROVER_ensures((RET && INR(g_x, start, length)) ==> g_was_member)
-__CPROVER_assigns();
-
-_Bool coverage_is_overlap(const coverage *self, uint64_t start, uint64_t length)
-__CPROVER_requires(SHAPE(self, 0) && cov_wf(self) && NOWRAP(start, length) && length > 0)
-__CPROVER_requires(g_was_member == cov_member(self, g_x))
-__CPROVER_ensures(RET == cov_overlaps(self, start, length))
-__CPROVER_ensures((!RET && INR(g_x, start, length)) ==> !g_was_member)
-__CPROVER_assigns();
-#endif
+#include "specfn.h"
 
 #ifdef C16_SAFE
 /* ---- safety contracts (unbounded in the number of ranges; loop contracts) ------------------ */
